@@ -47,7 +47,7 @@ COMPONENTS = {
     "stub_or_harness": ["import-sequence generator", "namespace invariant checker (child side)", "spec generator"],
 }
 FAULT_KINDS = ["first_import_order"]
-PROBES = ["first_import_generated_leaf", "first_import_net_packet_module", "import_as_form", "star_import_form",
+PROBES = ["library_used_before_namespace_walk", "first_import_generated_leaf", "first_import_net_packet_module", "import_as_form", "star_import_form",
           "first_import_static_leaf", "first_import_generated_package"]
 CHILD = os.path.join(VERIF_DIR, "sim", "child.py")
 
@@ -95,6 +95,26 @@ def generate(streams, tier):
     prng = streams.get("plan")
     return {"tree": tree, "tier": tier, "order_seed": prng.randrange(1 << 30),
             "sequences": 6 if tier == "quick" else 20}
+
+
+# The public classes, functions and constants of the hand-written modules as documented for the pinned version
+# (docs/ and the modules' own __all__ at that commit).  A module that stops listing one of them in its __all__ has
+# not made it private: it is still documented, and it must still resolve from the top-level package and its home
+# subpackage.  Names added later are picked up from the source as before.
+DOCUMENTED_API = {
+    "eolib.data.eo_numeric_limits": ["CHAR_MAX", "SHORT_MAX", "THREE_MAX", "INT_MAX"],
+    "eolib.data.eo_reader": ["EoReader"],
+    "eolib.data.eo_writer": ["EoWriter"],
+    "eolib.data.number_encoding_utils": ["encode_number", "decode_number"],
+    "eolib.data.string_encoding_utils": ["encode_string", "decode_string"],
+    "eolib.encrypt.encryption_utils": ["interleave", "deinterleave", "flip_msb", "swap_multiples"],
+    "eolib.encrypt.server_verification_utils": ["server_verification_hash"],
+    "eolib.packet.packet_sequencer": ["PacketSequencer"],
+    "eolib.packet.sequence_start": ["SequenceStart", "AccountReplySequenceStart", "InitSequenceStart", "PingSequenceStart"],
+    "eolib.protocol.net.packet": ["Packet"],
+    "eolib.protocol.protocol_enum_meta": ["ProtocolEnumMeta"],
+    "eolib.protocol.serialization_error": ["SerializationError"],
+}
 
 
 def static_modules(src_eolib):
@@ -170,7 +190,7 @@ def execute(plan, env):
         if path.endswith("__init__.py"):
             continue
         home = mod.rpartition(".")[0]
-        for n in public_names(path):
+        for n in sorted(set(public_names(path)) | set(DOCUMENTED_API.get(mod, []))):
             names.append([mod, home, n])
     gen_modules = []
     gen_packages = set()
@@ -238,7 +258,12 @@ def execute(plan, env):
             res.count("probe.import_as_form")
         if form == "star":
             res.count("probe.star_import_form")
-        job = {"sys_path": [ws.src], "steps": [{"op": "namespace", "imports": seq, "modules": documented, "names": names}]}
+        # in every third sequence the program uses the library for a while before anyone looks at the namespace
+        exercise = (len(sequences) + sequences.index(seq) + plan["order_seed"]) % 3 == 0
+        if exercise:
+            res.count("probe.library_used_before_namespace_walk")
+        job = {"sys_path": [ws.src], "steps": [{"op": "namespace", "imports": seq, "modules": documented, "names": names,
+                                                "exercise": exercise}]}
         envv = dict(os.environ, PYTHONHASHSEED="0", PYTHONDONTWRITEBYTECODE="1")
         envv.pop("PYTHONPATH", None)
         p = subprocess.run([sys.executable, CHILD], input=json.dumps(job), capture_output=True, text=True, env=envv, timeout=600)
